@@ -7,4 +7,4 @@ CONSTANTS
   Reps = {1}
   Lock = FALSE
 INVARIANTS Deterministic
-CHECK_DEADLOCK TRUE
+CHECK_DEADLOCK FALSE
